@@ -347,6 +347,7 @@ def compose(rng, m, mode):
     call = B.inline(m)
     r1 = call(**args)
     outs = {}
+    compose.pre = None
     if mode == "once":
         outs = {f"o_{k}": v for k, v in r1.items()}
         plan = [("m", dict(args))]
@@ -354,6 +355,14 @@ def compose(rng, m, mode):
         r2 = call(**args)
         outs = {f"o1_{k}": v for k, v in r1.items()}
         outs.update({f"o2_{k}": v for k, v in r2.items()})
+    elif mode == "rebuilt":
+        # r1 is built ON ITS OWN first (see the caller: Case.pre); the program then holds a SECOND application of m that is reached
+        # first, next to r1: what an earlier build named or reserved for r1's block must not survive into this build
+        r2 = call(**args)
+        outs = {f"o2_{k}": v for k, v in r2.items()}
+        outs.update({f"o1_{k}": v for k, v in r1.items()})
+        compose.pre = (dict(args), {f"o_{k}": v for k, v in r1.items()}, False)
+        mode = "twice"
     elif mode == "in_if":
         cond = B.argument(B.Tensor(np.bool_, ()))
         args["__cond"] = cond
@@ -440,7 +449,7 @@ def run(run: Run) -> int:
     ehist = collections.Counter()
     reps = 2 if quick else 8
     for tag, m, runnable in models:
-        for mode in ("once", "twice", "in_if", "chained"):
+        for mode in ("once", "twice", "in_if", "chained", "rebuilt"):
             for _ in range(1 if tag == "spox-built" else reps if quick else reps):
                 before = m.SerializeToString(deterministic=True)
                 try:
@@ -448,7 +457,8 @@ def run(run: Run) -> int:
                 except Exception as e:  # noqa: BLE001
                     run.fail("impl", f"C08/call-rejected/{tag}", f"inline({tag})(valid arguments) raised {type(e).__name__}: {str(e)[:120]}", {"tag": tag, "mode": mode})
                     continue
-                c = B.Case(args, outs, False, {"tag": tag, "mode": mode2})
+                c = B.Case(args, outs, False, {"tag": tag, "mode": mode2 if compose.pre is None else "rebuilt"})
+                c.pre = compose.pre
                 B.run_impl(c)
                 older = any(i.domain in ("", "ai.onnx") and i.version != 17 for i in m.opset_import) and tag.startswith("opset")
                 if older:
@@ -485,7 +495,7 @@ def run(run: Run) -> int:
     cov = {
         "evaluations": len(bcases) + len(cases) + n_type_calls, "distinct_nontrivial": len({c.impl for c in cases if c.model_proto is not None}),
         "rule": "calling forms: random positional prefixes (incl. surplus), keywords (incl. duplicates/unknown), defaults; models: "
-                f"{len(corners)} hand-built corner shapes + {len(spox_models)} spox-built; compositions once/twice/inside If/chained; distinct built models by rendering",
+                f"{len(corners)} hand-built corner shapes + {len(spox_models)} spox-built; compositions once/twice/inside If/chained/second build after a build of one application alone; distinct built models by rendering",
         "traces_validated_against_impl": (len(bcases) - n_bind_mis) + len([c for c in cases if c.coq is not None]) - len(mism),
         "disagreements_checked": len(mism) + n_bind_mis, "semantic_runs_ort_m_vs_built": n_sem, "semantic_mismatches": sem_bad,
         "type_boundary_calls": n_type_calls,
